@@ -9,6 +9,13 @@ hook_commits = [l.split()[0] for l in HOOK_COMMITS if "verif" in l.lower() and n
 
 # id -> (engine, technique, level text, level note, design ref)
 CHECKS = {
+    "C08": (
+        "E2",
+        "exhaustive enumeration of all token strings up to length L over a 52-token alphabet (one spelling of every token kind) in fresh and prelude sessions, plus every (template x extreme) input in an isolated child process",
+        "(a) Every token string of length <= 3 (quick) / 4 (thorough) over one spelling of every token kind is interpreted in a fresh clone of a no-prelude and of a prelude session, the result echoed or the diagnostic rendered, inside catch_unwind with a panic hook recording the call site. (b) 53 templates (powers, unit powers, factorial runs, nested brackets/unary runs/lists/conditionals/calls, long chains, long literals, many statements, recursion depth ...) x extreme values or repetition counts, each in its own child process with a time and address-space limit; exit by signal, timeout or panic is the observation. Crashes are keyed by panic call site or template so one defect is one finding.",
+        "Trusted: the harness builds numbat with debug assertions and overflow checks; random byte soup and contexts longer than L tokens outside the templates are not covered.",
+        "§4 C08",
+    ),
     "C10": (
         "E2",
         "exhaustive enumeration of all token strings up to length L over a 25-token alphabet (and all short literal strings, all single spelling substitutions) against a reference parser written from the documented EBNF and precedence table",
